@@ -234,7 +234,7 @@ def generate(seed, prop):
         elif fam == "multidev":
             t = any_slot("D")
             if t is not None and m.slot["D"][t] is None:
-                emit(["mkdev", t, r.choice(["Serial", "OpenMP"])])
+                emit(["mkdev", t, r.choice(["Serial", "OpenMP"]), 1 if ("hostalias" in enabled and r.random() < 0.4) else 0])
         elif fam in ("copy", "invalid", "uninit"):
             _gen_copy(r, m, emit, fam, live_mem_slots, any_slot, fillv)
         elif fam == "slice":
@@ -274,7 +274,7 @@ def generate(seed, prop):
                 h = r.randrange(hm.NH)
                 x = r.random()
                 if x < 0.4:
-                    emit(["wrap", d, t, h, n, dt])
+                    emit(["wrap", d, t, h, n, dt, 1 if r.random() < 0.3 else 0])
                 elif x < 0.8:
                     emit(["malloc", d, t, n, dt, h, 1 if r.random() < 0.7 else 0, 0])
                 else:
@@ -370,6 +370,8 @@ def _gen_copy(r, m, emit, fam, live_mem_slots, any_slot, fillv):
         # host <-> device
         h = r.randrange(hm.NH)
         if bad:
+            if va.storage is m.H[h]:
+                return          # a request that happens to be valid must not be an overlapping memcpy
             cnt = r.choice([-2, -5, la + 1, la + 2, 1])
             off = r.choice([-1, -2, la, la + 1, 0]) if cnt == 1 else r.choice([0, 0, 1])
             emit([r.choice(["copyHM", "copyMH"]), a, h, cnt, off, 0])
@@ -393,6 +395,8 @@ def _gen_copy(r, m, emit, fam, live_mem_slots, any_slot, fillv):
     csz, dsz, ssz = DT[caller.dtype], DT[dst.dtype], DT[src.dtype]
     lc = caller.size // csz
     if bad:
+        if dst.storage is src.storage:
+            return              # a request that happens to be valid must not be an overlapping memcpy
         cnt = r.choice([-2, lc + 1, (max(dst.size, src.size) // csz) + 1, 1, 1])
         doff = r.choice([0, -1, dst.size // dsz, dst.size // dsz + 1])
         soff = r.choice([0, 0, -1, src.size // ssz + 1])
@@ -490,6 +494,11 @@ def check_history(ops, want_prop=None, tolerate=()):
                 stats["freed_with_3plus_handles"] += 1
         exp = hm.apply(m, op)
         name = op[0]
+        if m.undefined:
+            # (only reachable through shrinking: the generator never emits such operations) the history
+            # has undefined behaviour by the API's own rules, so nothing can be concluded from it
+            return {"violations": [], "known_hits": {}, "hash": "undefined", "stats": stats, "nops": len(full), "state_hash": "undefined",
+                    "status": status, "sig": sig, "undefined": m.undefined}
         # resize below reserved() must raise and change nothing (C04)
         if name == "presize" and exp.outcome == "ok":
             pool = m.slot["P"][int(op[1])]
@@ -538,8 +547,8 @@ def check_history(ops, want_prop=None, tolerate=()):
         # the op after the last complete block is where the child died
         idx = min(nexec, len(full) - 1)
         op = full[idx] if nexec < len(full) else ["<end-of-history>"]
-        cls = "asan" if status == 77 else ("crash" if sig else "abnormal-exit")
         what = _asan_summary(tail) if status == 77 else ("signal %s" % sig if sig else "exit status %s" % status)
+        cls = ("asan:" + what.split(": ", 1)[-1].split()[0]) if status == 77 else ("crash" if sig else "abnormal-exit")
         pp = prop_of_op(op[0]) if op[0] != "<end-of-history>" else "C01"
         viol.append((pp, cls, "op %d `%s`: %s" % (idx, " ".join(op), what), idx))
     elif not crashed and not viol and nexec >= len(full) + 2:
